@@ -262,7 +262,7 @@ class PlanarCurve(BaseCurve):
             # Filter values by distance abs(ui-uj, vi-vj)
             tol_du = 1e-6
             pairs = Intersection.filter_parameters(pairs, tol_du)
-        return tuple(pairs)
+        return tuple(pairs) if len(pairs) else None
 
     def __str__(self) -> str:
         msg = f"Planar curve of degree {self.degree} and "
